@@ -31,6 +31,11 @@ func (h *RequestBufferMiddleware) ServeHTTP(w http.ResponseWriter, r *http.Reque
 		return
 	}
 
+	// Discard the buffer (and its spill file) when the request ends. Do not
+	// rely on the reverse proxy to close the body it was handed: since Go 1.25
+	// it no longer closes the inbound body, which left the spill files behind.
+	defer requestBuffer.Close()
+
 	r.Body = requestBuffer
 	h.next.ServeHTTP(w, r)
 }
